@@ -1,6 +1,6 @@
 """C01 — Time limit bounds every evaluation."""
 
-from ..rules import limits, termination
+from ..rules import frontend, limits, termination
 
 
 def run(ctx, rep):
@@ -14,6 +14,7 @@ def run(ctx, rep):
     limits.rule_deadline_coherent(ctx, rep, "C01-R9")
     termination.rule_native_loops_terminate(ctx, rep, "C01-R8")
     termination.rule_prototype_chains_acyclic(ctx, rep, "C01-R8b")
+    frontend.rule_parse_polls_deadline(ctx, rep, "C01-R10")
     rep.undecided += [
         "size of the overrun in seconds (runtime quantity)",
         "cost of a single native call on bounded operands (excluded by the property's scope)",
